@@ -367,6 +367,34 @@ def mixed_container(rng):
     return '\n'.join(decls + fns) + '\n'
 
 
+def callable_arity(rng):
+    """function values with every argument-count window passed to callable parameters of every arity, then called"""
+    fns = ['fn z0() -> int { 7 }', 'fn a1(a: int) -> int { a + 1 }', 'fn a2(a: int, b: int) -> int { a + b }', 'fn o12(a: int, b: int ?= 2) -> int { a + b }',
+           'fn o02(a: int ?= 1, b: int ?= 2) -> int { a + b }', 'fn a3(a: int, b: int, c: int) -> int { a + b + c }']
+    apps = ['fn app0(f: ()->(int)) -> int { f() }', 'fn app1(f: (int)->(int)) -> int { f(1) }', 'fn app2(f: (int, int)->(int)) -> int { f(1, 2) }',
+            'fn thru(f: (int)->(int)) -> int { app1(f) + 1 }', 'fn pick1(f: (int)->(int), g: (int, int)->(int)) -> int { [f].get(0)(3) }']
+    names = ['z0', 'a1', 'a2', 'o12', 'o02', 'a3', '(x: int)->{x}', '(x: int, y: int)->{x + y}', '()->{1}', '(x: int, y: int ?= 5)->{x + y}']
+    calls = []
+    for i in range(5):
+        ap = rng.choice(['app0', 'app1', 'app2', 'thru'])
+        calls.append(f'fn c{i}() -> str {{ to_str({ap}({rng.choice(names)})) }}')
+    calls.append(f'fn c5() -> str {{ let h: {rng.choice(["()->(int)", "(int)->(int)", "(int, int)->(int)"])} = {rng.choice(names)}; to_str(h({", ".join(["1"] * rng.choice([0, 1, 2]))})) }}')
+    return '\n'.join(fns + apps + calls) + '\n'
+
+
+def two_generics(rng):
+    """generic functions of two type parameters whose bodies confuse them (must be rejected); accepted ones are instantiated at (int, str) and used"""
+    bodies = ['a', 'b', '[a, a]', '[a, b]', '(a, b)', '(b, a)', 'if(true, a, b)', 'some(a)', 'some(b)', 'same(a, b)', 'first(a, b)', 'first(b, a)']
+    rets = ['A', 'B', 'Sequence<A>', '(A, B)', 'Optional<A>']
+    uses = {'A': 'R + 1', 'B': 'R + "x"', 'Sequence<A>': 'R.get(0) + 1', '(A, B)': 'R::item0 + 1', 'Optional<A>': 'R.value() + 1'}
+    ret = rng.choice(rets)
+    body = rng.choice(bodies)
+    src = ('fn same<T>(x: T, y: T) -> T { x }\nfn first<T, U>(x: T, y: U) -> T { x }\n'
+           f'fn pick<A, B>(a: A, b: B) -> {ret} {{ {body} }}\n'
+           f'fn c0() -> str {{ to_str({uses[ret].replace("R", "pick(1, " + chr(34) + "s" + chr(34) + ")")}) }}\n')
+    return src
+
+
 def zero_arg_functions(src):
     return list(dict.fromkeys(re.findall(r'^fn\s+(\w+)\s*\(\s*\)', src, re.M)))
 
@@ -473,6 +501,8 @@ class C01(PropertyCheck):
             progs.append(('typed-ladder', typed_ladder(rng)))
             progs.append(('forward-declaration', forward_template(rng)))
             progs.append(('mixed-container-comparison', mixed_container(rng)))
+            progs.append(('callable-arity', callable_arity(rng)))
+            progs.append(('two-generics', two_generics(rng)))
         corpus = sorted(glob.glob('/repo/test_scripts/*.xr'))
         book = []
         for md in sorted(glob.glob('/repo/book/src/**/*.md', recursive=True)):
